@@ -322,7 +322,7 @@ func TestC31(t *testing.T) {
 		F    printer.Formatting
 	}{{"Default", printer.Default()}, {"Legacy", printer.Legacy()}}
 
-	cases := layoutCases(r, "c31", cs, r.N(300, 5000), r.N(1500, 30000))
+	cases := layoutCases(r, "c31", cs, r.N(300, 3000), r.N(1500, 15000))
 	r.Par(len(cases), func(i int) {
 		c := cases[i]
 		if !r.Want(c.ID) {
